@@ -115,8 +115,11 @@ Lemma compiler_checks_grant_matches : parser_checks_grant_matches = true.
 Proof. reflexivity. Qed.
 
 (* the second headline - "no nil error followed by a failing Build()" as a statement about the compiler
-   model: no schema at all (no guard, not even wf) gets the verdict Invalid *)
-Theorem no_unbuildable_definition : forall a, compile16 a <> VInvalid.
+   model: no schema at all (no guard, not even wf) gets the verdict Invalid.  One hypothesis, the open
+   finding C16-F12: the compiler checks the kind of a table named as a command parameter (it does not,
+   as read off the source; builder.Build() refuses anything but an ODoc). *)
+Theorem no_unbuildable_definition :
+  parser_command_parameter_kinds_checked = true -> forall a, compile16 a <> VInvalid.
 Proof. exact (compile16_never_invalid_flag compiler_checks_view_partition_key compiler_checks_grant_matches). Qed.
 
 (* the same for any analyser that has both checks, whether or not it recovers builder panics ... *)
@@ -135,6 +138,12 @@ Definition a_grant_no_views : schema := [(Pkg "app1"%string [[(Ws "Ws1"%string f
 Example unbuildable_definition_refuted_F6 :
   compile16_with true (PChecks false true true) a_view_no_pk = VInvalid /\ wf a_view_no_pk = false
   /\ compile16_with true (PChecks true false true) a_view_no_pk = VError.
+Proof. vm_compute. repeat split. Qed.
+
+Definition a_cmd_param_cdoc : schema := [(Pkg "app1"%string [[(Ws "Ws1"%string false [] None [(ITable (Table "T"%string false (Some (QR "sys"%string "CDoc"%string)) [(TField (Fld "a"%string DInt32 false false None))])); (IFunc (Func "C"%string true false (PDef (QR ""%string "T"%string)) PNone PNone))])]])].
+Example unbuildable_definition_refuted_F12 :
+  compile16_with true (PChecks true true false) a_cmd_param_cdoc = VInvalid /\ wf a_cmd_param_cdoc = false
+  /\ compile16_with true (PChecks true true true) a_cmd_param_cdoc = VError.
 Proof. vm_compute. repeat split. Qed.
 
 Example unbuildable_definition_refuted_F7 :
@@ -217,6 +226,7 @@ Print Assumptions no_unbuildable_definition.
 Print Assumptions no_unbuildable_definition_when_analyser_checks.
 Print Assumptions unbuildable_definition_refuted_F6.
 Print Assumptions unbuildable_definition_refuted_F7.
+Print Assumptions unbuildable_definition_refuted_F12.
 Print Assumptions wf_inherits_chains_end.
 Print Assumptions reaching_an_inherits_cycle_is_not_wf.
 Print Assumptions unrecovered_panic_on_uniques.
